@@ -12,6 +12,7 @@ package main
 // API keys against an independent HMAC-MD5 signer.
 
 import (
+	"os"
 	"crypto/hmac"
 	"crypto/md5"
 	"encoding/base64"
@@ -562,4 +563,122 @@ func vfSlug(s string) string {
 		}
 		return -1
 	}, strings.ToLower(s))
+}
+
+// ---- password boundaries --------------------------------------------------------------------------
+//
+// "a wrong password ... never authenticates": for every stored password length around the limits of
+// the hash function (bcrypt reads 72 bytes) and every near miss of it - one byte more, one byte less,
+// same first 72 bytes with another tail, a NUL appended, other case - only the exact password logs in.
+// The password is set at account creation and, separately, by a later password change.
+
+func TestVerifC12Passwords(t *testing.T) { vfPasswords("C12", "passwords") }
+
+// The same histories judged for C13 ("requests that are malformed ... are answered with an error
+// code"): an account creation or password change the server did not carry out must not be answered 2xx.
+func TestVerifC13AccReply(t *testing.T) { vfPasswords("C13", "acc-reply") }
+
+func vfPasswords(prop, part string) {
+	r := vfev.New(prop, part)
+	defer r.Finish()
+	defer r.RecoverPanic()
+	shard, shards := vfev.Shard()
+	mk := func(n int) string {
+		var sb strings.Builder
+		for i := 0; i < n; i++ {
+			sb.WriteByte("abcdefghijklmnopqrstuvwxyz0123456789"[(i*7+n)%36])
+		}
+		return sb.String()
+	}
+	lengths := []int{2, 3, 8, 70, 71, 72, 73, 100}
+	nb := 0
+	for _, how := range []string{"created", "changed"} {
+		for _, n := range lengths {
+			nb++
+			if nb%shards != shard {
+				continue
+			}
+			pw := mk(n)
+			type cand struct{ what, pw string }
+			cands := []cand{{"exact", pw}, {"plus-one-byte", pw + "x"}, {"plus-nul", pw + "\x00"}, {"minus-one-byte", pw[:n-1]},
+				{"last-byte-differs", pw[:n-1] + "#"}, {"upper-case", strings.ToUpper(pw)}, {"empty", ""}, {"plus-tail", pw + "-and-a-different-tail"}}
+			if n > 72 {
+				cands = append(cands, cand{"first-72-bytes", pw[:72]}, cand{"first-72-bytes-other-tail", pw[:72] + "zzzz"})
+			}
+			type obs struct {
+				what   string
+				code   int
+				authed bool
+			}
+			var seen []obs
+			stored := false
+			ackCode, exists, pwIs := 0, false, false
+			res := vsched.Run(vsched.Config{MaxSteps: 4000000}, func() {
+				w := vfBoot(vfBootOpts{})
+				login := fmt.Sprintf("user%d", n)
+				c := w.vfConnect("setup")
+				vsched.Quiesce()
+				c.Req(`{"hi":{"id":"$ID","ver":"0.22"}}`)
+				first := pw
+				if how == "changed" {
+					first = "initial-password"
+				}
+				code, _ := c.Req(`{"acc":{"id":"$ID","user":"new","scheme":"basic","secret":"%s","login":true,"desc":{"public":{"fn":"x"}}}}`, vfB64([]byte(login+":"+first)))
+				if how == "changed" && code >= 200 && code < 300 {
+					code, _ = c.Req(`{"acc":{"id":"$ID","scheme":"basic","secret":"%s"}}`, vfB64([]byte(login+":"+pw)))
+				}
+				stored = code >= 200 && code < 300
+				ackCode = code
+				exists = strings.Contains(w.db.DumpTables(true, "auth"), `uname="basic:`+login+`"`)
+				pwIs = exists && vfC12PasswordIs(login, pw)
+				if os.Getenv("VERIF_DEBUG") != "" {
+					fmt.Println("  debug: set", n, how, "->", code, w.db.DumpTables(true, "auth"))
+				}
+				c.Disconnect()
+				vsched.Quiesce()
+				for i, cd := range cands {
+					cl := w.vfConnect(fmt.Sprintf("probe%d", i))
+					vsched.Quiesce()
+					cl.Req(`{"hi":{"id":"$ID","ver":"0.22"}}`)
+					code, _ := cl.Req(`{"login":{"id":"$ID","scheme":"basic","secret":"%s"}}`, vfB64([]byte(login+":"+cd.pw)))
+					s := cl.session()
+					seen = append(seen, obs{cd.what, code, s != nil && !s.uid.IsZero()})
+					cl.Disconnect()
+					vsched.Quiesce()
+				}
+			})
+			r.States++
+			r.Transitions += int64(res.Steps)
+			r.Traces++
+			det := map[string]any{"password_bytes": n, "set_by": how, "accepted_by_server": stored}
+			for _, v := range vfStatusViolations(res) {
+				r.Violation("C12:passwords:"+v.Key, fmt.Sprintf("password of %d bytes (%s): %s", n, how, v.What), det)
+			}
+			r.Eval(1)
+			r.Distinct(fmt.Sprintf("%s/%d/reply", how, n))
+			if stored && !pwIs {
+				what := "no such account exists"
+				if exists {
+					what = "the account's password is not the requested one"
+				}
+				r.Violation("C13:failed-request-acknowledged:acc-"+how, fmt.Sprintf("{acc} setting a password of %d bytes (%s) was answered %d, but %s", n, how, ackCode, what), det)
+			}
+			if !stored && pwIs {
+				r.Violation("C13:refused-request-carried-out:acc-"+how, fmt.Sprintf("{acc} setting a password of %d bytes (%s) was answered %d, yet the password is in force", n, how, ackCode), det)
+			}
+			for _, o := range seen {
+				r.Eval(1)
+				r.Distinct(fmt.Sprintf("%s/%d/%s", how, n, o.what))
+				passed := o.code == 200 && o.authed
+				r.Outcome(fmt.Sprintf("stored=%v %s passed=%v", stored, o.what, passed))
+				switch {
+				case passed && (o.what != "exact" || !stored):
+					r.Violation("C12:wrong-password-authenticated:"+o.what, fmt.Sprintf("the password has %d bytes (%s, accepted by the server: %v); a login with the candidate %q (%s) authenticated", n, how, stored, o.what, map[bool]string{true: "a different string", false: "the string the server refused to store"}[o.what != "exact"]), det)
+				case !passed && o.what == "exact" && stored:
+					r.Violation("C12:right-password-refused:len", fmt.Sprintf("the %d-byte password was accepted (%s) but the login with it answered %d", n, how, o.code), det)
+				}
+			}
+		}
+	}
+	r.Sample("password of 72 bytes, login with password+\"x\"")
 }
